@@ -58,7 +58,7 @@ def digest_of(obj):
     return hashlib.blake2b(json.dumps(obj, sort_keys=True, default=str).encode(), digest_size=12).hexdigest()
 
 
-SEAM_KINDS = ("hostile_alloc", "realloc_forced_move", "free_poisoned", "heap_garbage_varied", "simulated_clock_read", "clock_jump", "io_event_logged")
+SEAM_KINDS = ("hostile_alloc", "realloc_forced_move", "free_poisoned", "heap_garbage_varied", "simulated_clock_read", "clock_jump", "io_event_logged", "guard_page_block")
 
 
 def seam_counters():
@@ -67,9 +67,9 @@ def seam_counters():
         from . import rb
         out = (ctypes.c_uint64 * 8)()
         rb.L.verif_seam_counters(out)
-        return list(out[:7])
+        return list(out[:8])
     except Exception:
-        return [0] * 7
+        return [0] * 8
 
 
 def load_known():
